@@ -85,5 +85,69 @@ def _compare(net, n3, tag, fails):
         fails.append("per-phase line powers do not add up to the symmetric total")
 
 
+def _slack_balance(n3, tag, fails):
+    """per phase: what the ext_grids deliver = what the branches take from the slack bus + what the elements at the slack bus take"""
+    hv = int(n3.ext_grid.bus.iat[0])
+    for ph in "abc":
+        eg = n3.res_ext_grid_3ph[f"p_{ph}_mw"].values
+        eg = np.nansum(eg)
+        branches = n3.res_trafo_3ph[f"p_{ph}_hv_mw"].values[n3.trafo.hv_bus.values == hv].sum()
+        elements = (n3.load.p_mw[(n3.load.bus == hv) & n3.load.in_service].sum() - n3.sgen.p_mw[(n3.sgen.bus == hv) & n3.sgen.in_service].sum()) / 3 + \
+            n3.asymmetric_load[f"p_{ph}_mw"][n3.asymmetric_load.bus == hv].sum()
+        if abs(eg - branches - elements) > 1e-4:
+            fails.append(f"{tag}: phase {ph}: the ext_grids deliver {eg:.5f} MW, the transformer takes {branches:.5f} MW and the elements at the "
+                         f"ext_grid bus take {elements:.5f} MW")
+            return
+
+
+def main_more():
+    """elements at the ext_grid bus, several ext_grids, connection types other than the literal 'wye' / 'delta'"""
+    fails = []
+    # (1) load and sgen at the ext_grid bus
+    for asym in (False, True):
+        n3 = _net0()
+        pp.create_load(n3, 0, 6., 2.); pp.create_sgen(n3, 0, 1.5, 0.)
+        if asym:
+            pp.create_asymmetric_load(n3, 0, p_a_mw=1.2, q_a_mvar=.3, p_b_mw=.3, q_b_mvar=.1, p_c_mw=.6, q_c_mvar=.2)
+        runpp_3ph(n3)
+        _slack_balance(n3, "load and sgen at the ext_grid bus" + (" plus an asymmetric load" if asym else ""), fails)
+        if not asym:
+            net = _net0()
+            pp.create_load(net, 0, 6., 2.); pp.create_sgen(net, 0, 1.5, 0.)
+            pp.runpp(net, calculate_voltage_angles=True)
+            for ph in "abc":
+                if not np.isclose(n3.res_ext_grid_3ph[f"p_{ph}_mw"].iat[0], net.res_ext_grid.p_mw.iat[0] / 3, atol=1e-4):
+                    fails.append(f"load and sgen at the ext_grid bus: res_ext_grid_3ph.p_{ph}_mw = {n3.res_ext_grid_3ph[f'p_{ph}_mw'].iat[0]:.5f}, one "
+                                 f"third of the symmetric result is {net.res_ext_grid.p_mw.iat[0] / 3:.5f}")
+                    break
+    # (2) an out-of-service ext_grid listed before the one in service; two ext_grids at one bus
+    n3 = _net0()
+    n3.ext_grid = n3.ext_grid.iloc[0:0]
+    kw = dict(vm_pu=1.0, s_sc_max_mva=5000., rx_max=0.1, r0x0_max=0.1, x0x_max=1.0)
+    pp.create_ext_grid(n3, 0, in_service=False, **kw); pp.create_ext_grid(n3, 0, **kw)
+    runpp_3ph(n3)
+    net = _net0(); pp.runpp(net, calculate_voltage_angles=True)
+    got = n3.res_ext_grid_3ph.p_a_mw.values
+    if not (np.isclose(np.nan_to_num(got[0]), 0., atol=1e-6) and np.isclose(got[1], net.res_ext_grid.p_mw.iat[0] / 3, atol=1e-4)):
+        fails.append(f"an out-of-service ext_grid listed before the one in service: res_ext_grid_3ph.p_a_mw = {got.tolist()}, expected "
+                     f"[0 or NaN, {net.res_ext_grid.p_mw.iat[0] / 3:.5f}]")
+    n3 = _net0()
+    pp.create_ext_grid(n3, 0, **kw)
+    runpp_3ph(n3)
+    _slack_balance(n3, "two ext_grids at one bus", fails)
+    # (3) connection types that are neither the literal 'wye' nor 'delta' (e.g. the sgen types 'PV' / 'WP' of the example networks)
+    for typ in ("PV", None):
+        net = _net0(); net.sgen["type"] = typ
+        pp.runpp(net, calculate_voltage_angles=True)
+        n3 = _net0(); n3.sgen["type"] = typ
+        runpp_3ph(n3)
+        _compare(net, n3, f"sgen with type {typ!r}", fails)
+    for f in fails:
+        print("REPRODUCED:", f)
+    if not fails:
+        print("not reproduced: slack-bus balance per phase, ext_grid rows and untyped elements agree")
+    sys.exit(1 if fails else 0)
+
+
 if __name__ == "__main__":
     main()
